@@ -142,7 +142,7 @@ impl Scenario for C30 {
                 14 => steps.push(json!({"op": "reuse", "which": rng.below(30), "sess": sess})),
                 15 => steps.push(json!({"op": "finish", "which": rng.below(30), "sess": sess})),
                 16 => steps.push(json!({"op": "add_node", "k": rng.below(50), "sess": sess})),
-                17 => steps.push(json!({"op": "del_node", "k": rng.below(40), "sess": sess})),
+                17 => steps.push(json!({"op": "del_node", "k": rng.below(40), "a": rng.below(40), "target_refs": rng.chance(0.6), "sess": sess})),
                 18 => steps.push(json!({"op": "add_ref", "a": rng.below(40), "b": rng.below(40), "sess": sess})),
                 _ => steps.push(json!({"op": "del_ref", "a": rng.below(40), "b": rng.below(40), "sess": sess})),
             }
@@ -400,7 +400,7 @@ async fn run(plan: &Value, ctx: &mut Ctx) {
                         request_header: hdr,
                         nodes_to_delete: Some(vec![DeleteNodesItem {
                             node_id: a.clone(),
-                            delete_target_references: true,
+                            delete_target_references: s["target_refs"].as_bool().unwrap_or(true),
                         }]),
                     }
                     .into(),
